@@ -171,7 +171,8 @@ def nv(v):
         if v == int(v):
             return int(v)
     if isinstance(v, bool):
-        return int(v)
+        # a truth value is not the number 1: a mask read back as 0/1 numbers indexes by position instead of selecting
+        return '__true__' if v else '__false__'
     return v
 
 
@@ -392,6 +393,9 @@ def _decorate(obj, plan, kind):
         o.descriptors['scalar0'] = 0                          # ... and so are zero, False and an all-zero vector
         o.descriptors['flag'] = False
         o.descriptors['zeros'] = np.zeros(3)
+        # truth values stay truth values (a mask that comes back as 0/1 numbers selects by position, not by truth)
+        per_col['keep'] = np.array([i % 3 != 1 for i in range(n_col)], dtype=bool)
+        o.descriptors['boolmat'] = np.array([[True, False], [False, False]])
     if 'longdouble' in dec:
         # unsigned 64-bit identifiers above 2**63 keep their value
         per_col['u64'] = np.array([2 ** 63 + 5 + 3 * i for i in range(n_col)], dtype=np.uint64)
